@@ -169,6 +169,22 @@ pub proof fn lemma_frame(data: Seq<u8>, fb: Seq<u8>, init: Seq<u8>, pb: Seq<bool
     }
 }
 
+// C01 step 3: a frame satisfying the builder's postcondition meets the acceptance condition of C03 (preamble, length, CRC-24Q)
+//@lemma msg.frame_post_is_accepted C01,C09
+pub proof fn lemma_frame_post_is_accepted(f: Seq<u8>, pb: Seq<bool>)
+    requires frame_post(f, pb),
+    ensures ({
+        let l = ((f[1] as int) % 4) * 256 + (f[2] as int);
+        &&& f.len() >= 8 && f.len() <= 1029 && f[0] == 0xd3u8 && (f[1] as int) / 4 == 0
+        &&& f.len() == l + 6
+        &&& ((f[l + 3] as u32) << 16 | (f[l + 4] as u32) << 8 | (f[l + 5] as u32)) == crc24q(f.subrange(0, l + 3))
+    }),
+{
+    let l: int = ((pb.len() + 7) / 8) as int;
+    assert(l / 256 <= 3 && (l / 256) % 4 == l / 256 && (l / 256) * 256 + l % 256 == l);
+}
+//@end
+
 pub mod message_frame {
     use vstd::prelude::*;
     // MessageFrame: opaque here; the accessor contracts are the ones proved in unit frame
@@ -334,9 +350,9 @@ def build(vf, srcs):
         ('msg.from_frame.empty_iff_short', {'C14'}, '(res is Empty) == (message_frame.sp_data().len() < 2)'),
         ('msg.from_frame.unsupported_reports_number', {'C14', 'C19'},
          'message_frame.sp_data().len() >= 2 && !supported(first12(message_frame.sp_data())) ==> res == Message::MsgNotSupported(MsgNotSupportedT { message_number: first12(message_frame.sp_data()) })'),
-        ('msg.from_frame.supported_typed_or_corrupt', {'C14', 'C19'},
+        ('msg.from_frame.supported_typed_or_corrupt', {'C14', 'C19', 'C01'},
          'message_frame.sp_data().len() >= 2 && supported(first12(message_frame.sp_data())) ==> res is Corrupt || number_spec(&res) == Some(first12(message_frame.sp_data()))'),
-        ('msg.from_frame.never_other_number', {'C14'},
+        ('msg.from_frame.never_other_number', {'C14', 'C01'},
          'number_spec(&res) is Some ==> message_frame.sp_data().len() >= 2 && number_spec(&res)->Some_0 == first12(message_frame.sp_data())'),
     ]
     sp.inserts.append(('before', 'let message_number =', 0, 'proof { crate::message_frame::axiom_frame_number(message_frame); }'))
